@@ -3,6 +3,7 @@ package props
 import (
 	"fmt"
 	"go/ast"
+	"go/constant"
 	"go/token"
 	"go/types"
 	"sort"
@@ -144,6 +145,11 @@ func (e *scaleEnv) expValue(x ast.Expr) (lin, bool) {
 		}
 		if fn := core.Callee(e.info, v); fn != nil && fn.Name() == "Exp" {
 			return e.expOfAmount(core.RecvExpr(v))
+		}
+		if id, ok := v.Fun.(*ast.Ident); ok && (id.Name == "max" || id.Name == "min") {
+			if _, isB := e.info.Uses[id].(*types.Builtin); isB {
+				return lin{types.ExprString(v): 1}, true // one common, otherwise unknown, exponent
+			}
 		}
 	case *ast.BinaryExpr:
 		a, ok1 := e.expValue(v.X)
@@ -391,8 +397,18 @@ func (e *scaleEnv) compare(cond ast.Expr) {
 		}
 		switch be.Op {
 		case token.LSS, token.GTR, token.LEQ, token.GEQ, token.EQL, token.NEQ:
-			// only comparisons between quantities
-			if f := core.FieldOf(e.info, be.X); f != nil && f.Name() == "value" {
+			// only comparisons between quantities (a value field, or a local holding one)
+			isQ := func(x ast.Expr) bool {
+				if f := core.FieldOf(e.info, x); f != nil && f.Name() == "value" {
+					return true
+				}
+				if v := core.VarOf(e.info, x); v != nil {
+					_, has := e.scale[v]
+					return has
+				}
+				return false
+			}
+			if isQ(be.X) {
 				a, ok1 := e.quantity(be.X)
 				b, ok2 := e.quantity(be.Y)
 				if ok1 && ok2 {
@@ -767,6 +783,12 @@ func c05Percentage(c *core.Ctx) {
 						}
 					}
 				}
+				// Upscale(2) is Rescale(exp + 2) by definition (checked: Upscale's body is that expression)
+				if fn := core.Callee(fd.Pkg.TypesInfo, rc); fn != nil && fn.Name() == "Upscale" && len(rc.Args) == 1 {
+					if tv, ok := fd.Pkg.TypesInfo.Types[rc.Args[0]]; ok && tv.Value != nil && tv.Value.String() == "2" && c05UpscaleIsRescalePlus(p) {
+						up = true
+					}
+				}
 			}
 		}
 		c.Ob("C05-R2", fd.Name()+"#shift", fd.Decl.Pos(), div != nil && up, "a percentage is not built as amount.Rescale(exp+2).Divide(100): the ±2 decimal shift between '21%' and 0.21 is broken")
@@ -835,83 +857,187 @@ func c05Split(c *core.Ctx) {
 	ok := false
 	why := "shape not recognised"
 	if ret != nil && len(ret.Results) == 2 {
-		q := core.VarOf(info, ret.Results[0])
-		r := core.VarOf(info, ret.Results[1])
-		if q != nil && r != nil {
-			// q := a.Divide(MakeAmount(x, 0))
-			qd, _ := ld.Before(q, ret.Pos())
-			qOK := false
-			if cl, isC := ast.Unparen(qd.RHS).(*ast.CallExpr); qd.RHS != nil && isC {
-				if isAmountMethod(core.Callee(info, cl), "Divide") && core.VarOf(info, core.RecvExpr(cl)) == recv {
-					qOK = true
+		// quotient expression: a.Divide(·) on the receiver, possibly through a local
+		resolveFull := func(e ast.Expr) ast.Expr {
+			for i := 0; i < 4; i++ {
+				v := core.VarOf(info, e)
+				if v == nil || v.IsField() {
+					break
+				}
+				d, has := ld.Before(v, ret.End())
+				if !has || d.RHS == nil {
+					break
+				}
+				// a3 = a.Subtract(a3): the inner a3 is the earlier definition
+				e = d.RHS
+			}
+			return ast.Unparen(e)
+		}
+		qe := resolveFull(ret.Results[0])
+		qv := core.VarOf(info, ret.Results[0])
+		qOK := false
+		if cl, isC := qe.(*ast.CallExpr); isC && isAmountMethod(core.Callee(info, cl), "Divide") && core.VarOf(info, core.RecvExpr(cl)) == recv {
+			qOK = true
+		}
+		// remainder: a.Subtract(q.Multiply(x-1)) where q is the quotient (same variable, or the same expression)
+		rOK := false
+		var subs []*ast.CallExpr
+		if cl, isC := ast.Unparen(ret.Results[1]).(*ast.CallExpr); isC {
+			subs = append(subs, cl)
+		}
+		if rv := core.VarOf(info, ret.Results[1]); rv != nil {
+			for _, d := range ld.All(rv) {
+				if cl, isC := ast.Unparen(d.RHS).(*ast.CallExpr); d.RHS != nil && isC {
+					subs = append(subs, cl)
 				}
 			}
-			// r = a.Subtract(q.Multiply(MakeAmount(x-1, 0)))   (possibly through a temporary)
-			rOK := false
-			for _, d := range ld.All(r) {
-				cl, isC := ast.Unparen(d.RHS).(*ast.CallExpr)
-				if d.RHS == nil || !isC || !isAmountMethod(core.Callee(info, cl), "Subtract") || core.VarOf(info, core.RecvExpr(cl)) != recv {
-					continue
+		}
+		for _, cl := range subs {
+			if !isAmountMethod(core.Callee(info, cl), "Subtract") || core.VarOf(info, core.RecvExpr(cl)) != recv {
+				continue
+			}
+			arg := ast.Unparen(cl.Args[0])
+			// through locals, choosing for a self-referring `r = a.Subtract(r)` the earlier definition
+			for i := 0; i < 3; i++ {
+				v := core.VarOf(info, arg)
+				if v == nil {
+					break
 				}
-				arg := ld.Resolve(cl.Args[0], 2)
-				if v := core.VarOf(info, cl.Args[0]); v == r {
-					// a3 = a.Subtract(a3): previous definition of a3
-					for _, d2 := range ld.All(r) {
-						if d2.Pos < d.Pos && d2.RHS != nil {
-							arg = d2.RHS
-						}
+				var prev ast.Expr
+				for _, d2 := range ld.All(v) {
+					if d2.Pos < cl.Pos() && d2.RHS != nil && ast.Unparen(d2.RHS) != ast.Expr(cl) {
+						prev = d2.RHS
 					}
 				}
-				if mc, isM := ast.Unparen(arg).(*ast.CallExpr); isM && isAmountMethod(core.Callee(info, mc), "Multiply") && core.VarOf(info, core.RecvExpr(mc)) == q {
-					// multiplier is x-1
-					found := false
-					ast.Inspect(mc.Args[0], func(n ast.Node) bool {
-						if be, isB := n.(*ast.BinaryExpr); isB && be.Op == token.SUB {
-							if tv, has := info.Types[be.Y]; has && tv.Value != nil && tv.Value.String() == "1" {
-								found = true
-							}
-						}
-						return true
-					})
-					rOK = found
+				if prev == nil {
+					break
 				}
+				arg = ast.Unparen(prev)
 			}
-			ok = qOK && rOK
-			why = fmt.Sprintf("quotient = a.Divide(x): %v; remainder = a − quotient·(x−1): %v", qOK, rOK)
+			mc, isM := arg.(*ast.CallExpr)
+			if !isM || !isAmountMethod(core.Callee(info, mc), "Multiply") {
+				continue
+			}
+			mr := core.RecvExpr(mc)
+			sameQ := (qv != nil && core.VarOf(info, mr) == qv) || types.ExprString(resolveFull(mr)) == types.ExprString(qe)
+			if !sameQ {
+				continue
+			}
+			found := false
+			ast.Inspect(ld.Resolve(mc.Args[0], 2), func(n ast.Node) bool {
+				if be, isB := n.(*ast.BinaryExpr); isB && be.Op == token.SUB {
+					if tv, has := info.Types[be.Y]; has && tv.Value != nil && tv.Value.String() == "1" {
+						found = true
+					}
+				}
+				return true
+			})
+			if found {
+				rOK = true
+			}
 		}
+		ok = qOK && rOK
+		why = fmt.Sprintf("quotient = a.Divide(x): %v; remainder = a − quotient·(x−1): %v", qOK, rOK)
 	}
 	c.Ob("C05-R3", fd.Name()+"#remainder", fd.Decl.Pos(), ok, "the parts of a split no longer add back to the original: "+why)
 }
 
 func c05Threshold(c *core.Ctx) {
 	p := c.P
-	// Compare sign table
+	// Compare sign table, by finite abstract evaluation: the function is run for the three
+	// orderings of (receiver quantity, argument quantity) brought to a common precision
 	if fd := p.Func("num", "Amount", "Compare"); fd != nil {
 		info := fd.Pkg.TypesInfo
-		got := map[token.Token]string{}
-		for _, s := range fd.Decl.Body.List {
-			if is, ok := s.(*ast.IfStmt); ok {
-				if be, ok := ast.Unparen(is.Cond).(*ast.BinaryExpr); ok && len(is.Body.List) == 1 {
-					if r, ok := is.Body.List[0].(*ast.ReturnStmt); ok && len(r.Results) == 1 {
-						if tv, has := info.Types[r.Results[0]]; has && tv.Value != nil {
-							// receiver on the left?
-							if core.RootVar(info, be.X) == recvVar(fd) {
-								got[be.Op] = tv.Value.String()
+		recv := recvVar(fd)
+		arg := fd.Obj.Type().(*types.Signature).Params().At(0)
+		ld := core.NewLocalDefs(info, fd.Decl.Body)
+		// which operand does an integer expression belong to?
+		var side func(e ast.Expr, depth int) *types.Var
+		side = func(e ast.Expr, depth int) *types.Var {
+			if depth > 4 {
+				return nil
+			}
+			var found *types.Var
+			mixed := false
+			ast.Inspect(e, func(n ast.Node) bool {
+				id, ok := n.(*ast.Ident)
+				if !ok {
+					return true
+				}
+				v, ok := info.Uses[id].(*types.Var)
+				if !ok || v.IsField() {
+					return true
+				}
+				var s *types.Var
+				switch {
+				case v == recv || v == arg:
+					s = v
+				default:
+					// amount- or integer-typed local: where was it computed from?
+					if !isAmountType(v.Type()) {
+						if b, isB := v.Type().Underlying().(*types.Basic); !isB || b.Info()&types.IsInteger == 0 || b.Kind() == types.Uint32 {
+							return true // exponents and the like carry no operand
+						}
+					}
+					for _, d := range ld.All(v) {
+						if d.RHS != nil {
+							if ds := side(d.RHS, depth+1); ds != nil {
+								s = ds
 							}
 						}
 					}
 				}
+				if s != nil {
+					if found != nil && found != s {
+						mixed = true
+					}
+					found = s
+				}
+				return true
+			})
+			if mixed {
+				return nil
 			}
+			return found
 		}
-		last := ""
-		if r, ok := fd.Decl.Body.List[len(fd.Decl.Body.List)-1].(*ast.ReturnStmt); ok && len(r.Results) == 1 {
-			if tv, has := info.Types[r.Results[0]]; has && tv.Value != nil {
-				last = tv.Value.String()
+		for _, o := range []struct {
+			name string
+			l, r int64
+			want int64
+			msg  string
+		}{{"less", 0, 1, -1, "Compare does not return -1 when the receiver is smaller"}, {"greater", 1, 0, 1, "Compare does not return 1 when the receiver is greater"}, {"equal", 1, 1, 0, "Compare does not return 0 when both are equal"}} {
+			ev := &core.AbsEval{Info: info}
+			ev.Atom = func(e ast.Expr) (any, bool) {
+				t := info.TypeOf(e)
+				if t == nil {
+					return nil, false
+				}
+				if b, ok := t.Underlying().(*types.Basic); !ok || b.Kind() != types.Int64 {
+					return nil, false
+				}
+				if _, isLit := ast.Unparen(e).(*ast.BasicLit); isLit {
+					return nil, false
+				}
+				switch side(e, 0) {
+				case recv:
+					return o.l, true
+				case arg:
+					return o.r, true
+				}
+				return nil, false
 			}
+			ret, ok := ev.Run(fd.Decl.Body)
+			got, isN := int64(0), false
+			if ok && len(ret) == 1 {
+				got, isN = ret[0].(int64)
+			}
+			if !ok || !isN {
+				c.Undecided("C05-R4", fd.Name()+"#"+o.name, fd.Decl.Pos(), "Compare could not be evaluated for this ordering of the two quantities")
+				continue
+			}
+			c.Ob("C05-R4", fd.Name()+"#"+o.name, fd.Decl.Pos(), got == o.want, o.msg)
 		}
-		c.Ob("C05-R4", fd.Name()+"#less", fd.Decl.Pos(), got[token.LSS] == "-1", "Compare does not return -1 when the receiver is smaller")
-		c.Ob("C05-R4", fd.Name()+"#greater", fd.Decl.Pos(), got[token.GTR] == "1", "Compare does not return 1 when the receiver is greater")
-		c.Ob("C05-R4", fd.Name()+"#equal", fd.Decl.Pos(), last == "0", "Compare does not return 0 otherwise")
+		// both quantities are brought to one precision before they are compared (R2 obligations of Compare)
 	} else {
 		c.Ob("C05-R4", "UNRESOLVED:num.Amount.Compare", token.NoPos, false, "method not found")
 	}
@@ -1042,72 +1168,11 @@ func c05Threshold(c *core.Ctx) {
 			return true
 		})
 	}
-	// fold the switch
-	var sw *ast.SwitchStmt
-	var cmpVar *types.Var
-	for _, s := range fd.Decl.Body.List {
-		switch x := s.(type) {
-		case *ast.SwitchStmt:
-			sw = x
-		case *ast.AssignStmt:
-			if len(x.Lhs) == 1 {
-				cmpVar = core.VarOf(info, x.Lhs[0])
-			}
-		}
-	}
-	if sw == nil || cmpVar == nil {
-		c.Undecided("C05-R4", fd.Name()+"#switch", fd.Decl.Pos(), "comparison switch not found")
-		return
-	}
-	evalRet := func(e ast.Expr, cmp int) (bool, bool) {
-		var ev func(e ast.Expr) (bool, bool)
-		ev = func(e ast.Expr) (bool, bool) {
-			e = ast.Unparen(e)
-			be, ok := e.(*ast.BinaryExpr)
-			if !ok {
-				return false, false
-			}
-			switch be.Op {
-			case token.LOR, token.LAND:
-				a, ok1 := ev(be.X)
-				b, ok2 := ev(be.Y)
-				if !ok1 || !ok2 {
-					return false, false
-				}
-				if be.Op == token.LOR {
-					return a || b, true
-				}
-				return a && b, true
-			case token.EQL, token.NEQ, token.LSS, token.GTR, token.LEQ, token.GEQ:
-				if core.VarOf(info, be.X) != cmpVar {
-					return false, false
-				}
-				tv, has := info.Types[be.Y]
-				if !has || tv.Value == nil {
-					return false, false
-				}
-				var k int
-				fmt.Sscan(tv.Value.ExactString(), &k)
-				switch be.Op {
-				case token.EQL:
-					return cmp == k, true
-				case token.NEQ:
-					return cmp != k, true
-				case token.LSS:
-					return cmp < k, true
-				case token.GTR:
-					return cmp > k, true
-				case token.LEQ:
-					return cmp <= k, true
-				default:
-					return cmp >= k, true
-				}
-			}
-			return false, false
-		}
-		return ev(e)
-	}
-	want := func(r string, cmp int) bool {
+	// the acceptance table, by finite abstract evaluation: for every operator constant that a
+	// constructor pairs with an error naming a relation, and for cmp in {-1, 0, 1}, the function is
+	// run with `<receiver>.operator` = that constant and the Compare result = cmp
+	recv := recvVar(fd)
+	want := func(r string, cmp int64) bool {
 		switch r {
 		case ">=":
 			return cmp >= 0
@@ -1121,57 +1186,54 @@ func c05Threshold(c *core.Ctx) {
 			return cmp != 0
 		}
 	}
-	covered := map[string]bool{}
-	for _, cc := range sw.Body.List {
-		clause := cc.(*ast.CaseClause)
-		var rels []string
-		if clause.List == nil {
-			// default: whatever operator has no own case
-			for o, r := range rel {
-				if !covered[o.Name()] {
-					rels = append(rels, o.Name()+":"+r)
+	var ops []types.Object
+	for o := range rel {
+		if o != nil {
+			ops = append(ops, o)
+		}
+	}
+	sort.Slice(ops, func(i, j int) bool { return ops[i].Name() < ops[j].Name() })
+	for _, o := range ops {
+		cst, isC := o.(*types.Const)
+		if !isC {
+			c.Undecided("C05-R4", fd.Name()+"#"+o.Name(), fd.Decl.Pos(), "operator is not a constant")
+			continue
+		}
+		opVal, _ := constant.Int64Val(constant.ToInt(cst.Val()))
+		okAll, decided := true, true
+		for _, cmp := range []int64{-1, 0, 1} {
+			ev := &core.AbsEval{Info: info}
+			ev.Atom = func(e ast.Expr) (any, bool) {
+				e = ast.Unparen(e)
+				if se, ok := e.(*ast.SelectorExpr); ok && se.Sel.Name == "operator" && core.VarOf(info, se.X) == recv {
+					return opVal, true
 				}
-			}
-		} else {
-			for _, ce := range clause.List {
-				if id, ok := ast.Unparen(ce).(*ast.Ident); ok {
-					if r, has := rel[info.Uses[id]]; has {
-						rels = append(rels, id.Name+":"+r)
-						covered[id.Name] = true
-					} else {
-						c.Undecided("C05-R4", fd.Name()+"#case:"+id.Name, ce.Pos(), "no constructor attaches an error naming the relation of this operator")
+				if call, ok := e.(*ast.CallExpr); ok {
+					if fn := core.Callee(info, call); isAmountMethod(fn, "Compare") {
+						return cmp, true
 					}
 				}
+				return nil, false
+			}
+			ret, ok := ev.Run(fd.Decl.Body)
+			b, isB := false, false
+			if ok && len(ret) == 1 {
+				b, isB = ret[0].(bool)
+			}
+			if !ok || !isB {
+				decided = false
+				break
+			}
+			if b != want(rel[o], cmp) {
+				okAll = false
 			}
 		}
-		if len(clause.Body) != 1 {
+		key := fd.Name() + "#" + o.Name()
+		if !decided {
+			c.Undecided("C05-R4", key, fd.Decl.Pos(), "the acceptance function could not be evaluated for this operator")
 			continue
 		}
-		ret, ok := clause.Body[0].(*ast.ReturnStmt)
-		if !ok || len(ret.Results) != 1 {
-			continue
-		}
-		sort.Strings(rels)
-		for _, nr := range rels {
-			parts := strings.SplitN(nr, ":", 2)
-			okAll, decided := true, true
-			for _, cmp := range []int{-1, 0, 1} {
-				v, d := evalRet(ret.Results[0], cmp)
-				if !d {
-					decided = false
-					break
-				}
-				if v != want(parts[1], cmp) {
-					okAll = false
-				}
-			}
-			key := fd.Name() + "#" + parts[0]
-			if !decided {
-				c.Undecided("C05-R4", key, ret.Pos(), "comparison expression has no model")
-				continue
-			}
-			c.Ob("C05-R4", key, ret.Pos(), okAll, fmt.Sprintf("operator %s accepts a different relation than the one its error message states (%s threshold)", parts[0], parts[1]))
-		}
+		c.Ob("C05-R4", key, fd.Decl.Pos(), okAll, fmt.Sprintf("operator %s accepts a different relation than the one its error message states (%s threshold)", o.Name(), rel[o]))
 	}
 }
 
@@ -1181,4 +1243,40 @@ func isFloat(t types.Type) bool {
 	}
 	b, ok := t.Underlying().(*types.Basic)
 	return ok && b.Info()&types.IsFloat != 0
+}
+
+
+// c05UpscaleIsRescalePlus: Amount.Upscale(n) returns receiver.Rescale(<receiver exponent> + n).
+func c05UpscaleIsRescalePlus(p *core.Program) bool {
+	fd := p.RawFunc("num", "Amount", "Upscale")
+	if fd == nil || len(fd.Decl.Body.List) != 1 {
+		return false
+	}
+	r, ok := fd.Decl.Body.List[0].(*ast.ReturnStmt)
+	if !ok || len(r.Results) != 1 {
+		return false
+	}
+	info := fd.Pkg.TypesInfo
+	call, ok := ast.Unparen(r.Results[0]).(*ast.CallExpr)
+	if !ok || !isAmountMethod(core.Callee(info, call), "Rescale") || core.VarOf(info, core.RecvExpr(call)) != recvVar(fd) || len(call.Args) != 1 {
+		return false
+	}
+	be, ok := ast.Unparen(call.Args[0]).(*ast.BinaryExpr)
+	if !ok || be.Op != token.ADD {
+		return false
+	}
+	param := fd.Obj.Type().(*types.Signature).Params().At(0)
+	isExp := func(e ast.Expr) bool {
+		e = ast.Unparen(e)
+		if se, ok := e.(*ast.SelectorExpr); ok && se.Sel.Name == "exp" && core.VarOf(info, se.X) == recvVar(fd) {
+			return true
+		}
+		if c2, ok := e.(*ast.CallExpr); ok {
+			if fn := core.Callee(info, c2); fn != nil && fn.Name() == "Exp" && core.VarOf(info, core.RecvExpr(c2)) == recvVar(fd) {
+				return true
+			}
+		}
+		return false
+	}
+	return (isExp(be.X) && core.VarOf(info, be.Y) == param) || (isExp(be.Y) && core.VarOf(info, be.X) == param)
 }
